@@ -1,0 +1,10 @@
+//go:build verif
+
+package cmd
+
+import "context"
+
+// VerifGcStaleCheckpoint runs the body of the stale-checkpoint cron job once.
+func (sc *SyncerCmd) VerifGcStaleCheckpoint(ctx context.Context) {
+	sc.gcStaleCheckpoint(ctx)
+}
